@@ -1,11 +1,13 @@
 import HopModel.Driver.C14
 import HopModel.Driver.C20
 import HopModel.Driver.C17
+import HopModel.Driver.C16
 
 def main (args : List String) : IO UInt32 := do
   match args with
   | "C14" :: rest => Driver.C14.main rest; return 0
   | "C20" :: rest => Driver.C20.main rest; return 0
+  | "C16" :: rest => Driver.C16.main rest; return 0
   | "C17q" :: rest => Driver.C17.mainQ rest; return 0
   | _ =>
     IO.eprintln "usage: hopmodel <Cxx> [--spec] < ops.txt > model.txt"
